@@ -78,7 +78,14 @@ impl Streams {
                 let mut stream = Stream::new();
                 stream.add_value(value, generation)?;
                 let descriptor = StreamDescriptor::global(stream);
-                self.streams.insert(name.to_string(), vec![descriptor]);
+                match self.streams.entry(name.to_string()) {
+                    // restricted streams with this name could be alive (an instruction outside of their `new` span,
+                    // reached through `next`, writes to the global one): keep them, the global one goes below them
+                    Occupied(mut entry) => entry.get_mut().insert(0, descriptor),
+                    Vacant(entry) => {
+                        entry.insert(vec![descriptor]);
+                    }
+                }
             }
         }
         Ok(())
